@@ -31,6 +31,10 @@ type c12Probe struct {
 	marker   func(eff string) []string    // kind text: substrings that must be present in the method body
 	absent   func(eff string) []string    // kind text: substrings that must NOT be present
 	opposite func(eff string) string      // the explicit spelling siblings get
+	// deep: the probe position is a nested named/enum pair. It is converted inline when the method's value is `inline`,
+	// otherwise by a generated sub-method that is documented (and pinned) to take the converter-level value.
+	deep   bool
+	inline func(eff string) bool
 }
 
 func boolOn(v string) bool { return v == "bare" || v == "yes" }
@@ -45,6 +49,11 @@ func boolProbeOpposite(eff string) string {
 func successProbe(key, types, method string, clines []string, funcs string, invert bool, dflt string) c12Probe {
 	return c12Probe{key: key, isBool: true, values: []string{"bare", "yes", "no"}, dflt: dflt, types: types, method: method, clines: clines, funcs: funcs, kind: "success",
 		succeeds: func(eff string) bool { return boolOn(eff) != invert }, opposite: boolProbeOpposite}
+}
+
+func deepProbe(p c12Probe, inline func(eff string) bool) c12Probe {
+	p.deep, p.inline = true, inline
+	return p
 }
 
 func textProbe(key, types, method string, mlines, clines []string, funcs string, on []string) c12Probe {
@@ -73,6 +82,14 @@ func c12Probes(caseRoot string) []c12Probe {
 		successProbe("useUnderlyingTypeMethods", "type MyStr%[1]s string\ntype MyInt%[1]s int\ntype In%[1]s struct{ V MyStr%[1]s }\ntype Out%[1]s struct{ V MyInt%[1]s }\n", "%[2]s(source In%[1]s) Out%[1]s",
 			[]string{"extend StrToInt"}, "func StrToInt(s string) int { return len(s) }\n", false, "no"),
 		successProbe("enum", "type KA%[1]s int\nconst A1%[1]s KA%[1]s = 1\ntype KB%[1]s int\nconst B1%[1]s KB%[1]s = 1\n", "%[2]s(source KA%[1]s) KB%[1]s", nil, "", true, "yes"),
+		// the same settings observed one level deeper, at a field of the method's own struct: the value in effect is still the method's
+		deepProbe(successProbe("enum", "type KA%[1]s int\nconst A1%[1]s KA%[1]s = 1\ntype KB%[1]s int\nconst B1%[1]s KB%[1]s = 1\ntype In%[1]s struct{ K KA%[1]s }\ntype Out%[1]s struct{ K KB%[1]s }\n", "%[2]s(source In%[1]s) Out%[1]s", nil, "", true, "yes"),
+			func(eff string) bool { return !boolOn(eff) }),
+		deepProbe(successProbe("skipCopySameType", "type Inner%[1]s struct{ C chan int }\ntype In%[1]s struct{ N Inner%[1]s }\ntype Out%[1]s struct{ N Inner%[1]s }\n", "%[2]s(source In%[1]s) Out%[1]s", nil, "", false, "no"),
+			func(eff string) bool { return boolOn(eff) }),
+		// the shorthand update:ignoreZeroValueField must switch all three categories on AND off
+		textProbe("update:ignoreZeroValueField", "type In%[1]s struct{ S struct{ X int } }\ntype Out%[1]s struct{ S struct{ X int } }\n", "%[2]s(source In%[1]s, target *Out%[1]s)", []string{"update target"}, nil, "", []string{"source.S != struct"}),
+		textProbe("update:ignoreZeroValueField", "type In%[1]s struct{ C chan int }\ntype Out%[1]s struct{ C chan int }\n", "%[2]s(source In%[1]s, target *Out%[1]s)", []string{"update target"}, []string{"skipCopySameType"}, "", []string{"source.C != nil"}),
 		textProbe("wrapErrors", "type In%[1]s struct{ S string }\ntype Out%[1]s struct{ S string }\n", "%[2]s(source In%[1]s) (Out%[1]s, error)", nil, []string{"extend SE"},
 			"func SE(s string) (string, error) { return s, nil }\n", []string{"error setting field S"}),
 		textProbe("update:ignoreZeroValueField", "type In%[1]s struct{ B int }\ntype Out%[1]s struct{ B int }\n", "%[2]s(source In%[1]s, target *Out%[1]s)", []string{"update target"}, nil, "", []string{"source.B != 0"}),
@@ -206,6 +223,9 @@ func C12(e *core.Env) int {
 			for _, b := range vals {
 				for _, c := range vals {
 					for _, sib := range []bool{false, true} {
+						if sib && allProbes[pi].deep {
+							continue
+						}
 						if e.Tier != "thorough" && sib && (n+int(e.Seed))%2 == 0 {
 							// quick: every cell alone, every second cell additionally with siblings
 							n++
@@ -233,6 +253,10 @@ func C12(e *core.Env) int {
 		reroot := func(v string) string { return strings.Replace(v, "vcase/x/", "vcase/"+c.name+"/", 1) }
 		cli, conv, meth := reroot(c.cli), reroot(c.conv), reroot(c.meth)
 		eff := resolve(cli, conv, meth, p.dflt)
+		if p.deep && !p.inline(eff) {
+			// a generated sub-method converts the nested pair with the converter-level value
+			eff = resolve(cli, conv, "", p.dflt)
+		}
 		var sb strings.Builder
 		sb.WriteString("package p\n\n")
 		sb.WriteString(p.funcs)
@@ -298,7 +322,7 @@ func C12(e *core.Env) int {
 			results[i].viol = &core.Viol{Kind: kind, Case: c.name, Summary: sum, Detail: det(), Dir: dir, Tags: []string{"setting:" + p.key}}
 		}
 		cellKey := fmt.Sprintf("%s cli=%s conv=%s meth=%s", p.key, spell(cli), spell(conv), spell(meth))
-		results[i].nt = cellKey + fmt.Sprint(c.siblings)
+		results[i].nt = cellKey + fmt.Sprint(c.siblings) + "|" + p.method + "|" + head(p.types, 60)
 		if i%211 == 0 {
 			results[i].samp = map[string]any{"setting": p.key, "cli": cli, "converter": conv, "method": meth, "effective": eff, "siblings": c.siblings, "args": args, "exit": gr.Exit}
 		}
